@@ -338,7 +338,8 @@ class ObjectiveHistory:
         distinct = len(self.used)
         nt = (distinct >= 2 and self.model_eval_seen and self.raw_after_model)
         i = self.init
-        labels = [f"sys={i['sys']}", f"ctrl={i['ctrl']}", f"cls={i['cls']}",
+        labels = [f"training_dtype={i.get('tdtype') or 'float64'}",
+                  f"sys={i['sys']}", f"ctrl={i['ctrl']}", f"cls={i['cls']}",
                   f"smm={i['smm']}",
                   "evals=0" if sum(self.n_eval.values()) == 0 else
                   "evals=1..3" if sum(self.n_eval.values()) <= 3 else
